@@ -219,6 +219,56 @@ impl CutFamily {
     }
 }
 
+/// Repetition family (complete enumeration): goals that succeed several times *without binding
+/// anything* (`vote($_)`, a ground call matching several clauses, a zero-arity predicate with
+/// two facts, `(1 = 1 ; 2 = 2)`), in first and second position of a conjunction, with prints
+/// between them and failure-driven loops after them. Answer multiplicity and the number of
+/// times each print runs depend on every retry being executed.
+pub struct RepeatFamily { ms: Vec<G>, tails: Vec<Option<G>>, laters: Vec<Vec<Clause>>, queries: Vec<(String, Vec<T>)>, with_print: bool }
+
+impl RepeatFamily {
+    pub fn new(with_print: bool) -> RepeatFamily {
+        let xv = x();
+        let i = |k: i64| T::Int(k);
+        let ms = vec![
+            call("vote", vec![T::Anon]), call("vote", vec![atom("yes")]), call("flag", vec![]),
+            G::Or(vec![G::Unify(i(1), i(1)), G::Unify(i(2), i(2))]),
+            call("gen", vec![T::Anon]), call("mem", vec![i(2), list(vec![i(2), i(1), i(2)])]),
+            G::Not(Box::new(call("none", vec![i(1)]))), call("gen", vec![xv.clone()]),
+        ];
+        let tails = vec![None, Some(G::Fail), Some(G::Cmp(Cmp::Eq, xv.clone(), i(2))), Some(G::Nl)];
+        let laters = vec![vec![], vec![rule("p", vec![xv.clone()], G::Unify(xv.clone(), i(7)))], vec![fact("p", vec![i(2)])]];
+        let queries = vec![("p".into(), vec![xv.clone()]), ("p".into(), vec![i(2)])];
+        RepeatFamily { ms, tails, laters, queries, with_print }
+    }
+    fn dims(&self) -> [usize; 6] { [self.ms.len(), self.ms.len(), self.tails.len(), self.laters.len(), self.queries.len(), if self.with_print { 4 } else { 1 }] }
+    pub fn total(&self) -> u64 { self.dims().iter().map(|d| *d as u64).product() }
+    pub fn get(&self, idx: u64) -> Case {
+        let d = self.dims();
+        let mut i = idx as usize;
+        let mut take = |n: usize| { let k = i % n; i /= n; k };
+        let (a, b, t, la, qi, pr) = (take(d[0]), take(d[1]), take(d[2]), take(d[3]), take(d[4]), take(d[5]));
+        let xv = x();
+        let mut body = vec![self.ms[a].clone()];
+        if pr == 1 || pr == 3 { body.push(G::Print(vec![atom("*")])); }
+        body.push(self.ms[b].clone());
+        if pr == 2 || pr == 3 { body.push(G::Print(vec![atom("+")])); }
+        if let Some(g) = &self.tails[t] { body.push(g.clone()); }
+        let mut clauses = vec![
+            fact("vote", vec![atom("yes")]), fact("vote", vec![atom("no")]), fact("vote", vec![atom("yes")]),
+            fact("flag", vec![]), fact("flag", vec![]),
+            fact("gen", vec![T::Int(1)]), fact("gen", vec![T::Int(2)]), fact("gen", vec![T::Int(3)]),
+            fact("none", vec![T::Int(99)]),
+            fact("mem", vec![xv.clone(), mk_list(vec![xv.clone()], Some(var("$Rest")))]),
+            rule("mem", vec![xv.clone(), mk_list(vec![var("$Y")], Some(var("$T")))], call("mem", vec![xv.clone(), var("$T")])),
+            rule("p", vec![xv.clone()], G::And(body)),
+        ];
+        clauses.extend(self.laters[la].iter().cloned());
+        let (qname, qargs) = self.queries[qi].clone();
+        Case { prog: Program { clauses }, qname, qargs }
+    }
+}
+
 /// not-focused family (complete enumeration): `PRE, not(G), POST` with G over predicates whose
 /// facts are ground, non-ground (`$_`, repeated variables, list patterns) or numerically
 /// look-alike (1 vs 1.0); G ground, partly bound or unbound at the call; G a call, a
